@@ -27,11 +27,17 @@ pub trait SecondaryIteratorImpl {}
 /// To achieve this, we must enable GAT.
 pub struct SecondaryTableTxnIterator {
     iter: SecondaryIterator,
+    /// Number of columns at the end of each batch that are scanned only to merge RowSets by key
+    /// and are not part of the output.
+    hidden_columns: usize,
 }
 
 impl SecondaryTableTxnIterator {
-    pub(super) fn new(iter: SecondaryIterator) -> Self {
-        Self { iter }
+    pub(super) fn new(iter: SecondaryIterator, hidden_columns: usize) -> Self {
+        Self {
+            iter,
+            hidden_columns,
+        }
     }
 }
 
@@ -56,10 +62,15 @@ impl TxnIterator for SecondaryTableTxnIterator {
         &mut self,
         expected_size: Option<usize>,
     ) -> StorageResult<Option<DataChunk>> {
-        Ok(self
-            .iter
-            .next_batch(expected_size)
-            .await?
-            .map(|x| x.to_data_chunk()))
+        let hidden = self.hidden_columns;
+        Ok((self.iter.next_batch(expected_size).await?)
+            .map(|x| x.to_data_chunk())
+            .map(|chunk| match hidden {
+                0 => chunk,
+                _ => (chunk.arrays()[..chunk.column_count() - hidden]
+                    .iter()
+                    .cloned())
+                .collect(),
+            }))
     }
 }
